@@ -32,8 +32,8 @@ except ImportError:
     NA = {}
 
 m = {"version": 1, "setup_cmd": "./setup.sh",
-     "hooks": {"guard": "verif-hooks",
-               "enable": "cargo feature `verif-hooks` of penguin-mux, switched on by the harness crates' dependency lines (plus RUSTFLAGS=\"--cfg loom\" for the C12 target)",
+     "hooks": {"guard": "penguin_rs_verif",
+               "enable": "RUSTFLAGS=\"--cfg loom --cfg penguin_rs_verif\" for the penguin-mux test target (C12); every other check uses the public API only",
                "baseline_off_cmd": "cd /repo && cargo test --workspace --no-fail-fast --offline",
                "source_commits": HOOK_COMMITS, "add_only": True},
      "engines": [], "checks": [],
